@@ -230,6 +230,23 @@ def mc_board(work, rep, tier):
     vlib.need_tlc_ok(r, "MCBoard")
     rep.add_tlc(r)
     rep.extra["mc_board"] = {"states": r.distinct, "max_ops": 6 if quick else 8, "wall_s": round(r.wall, 1)}
+    # the board AS IMPLEMENTED (prev-linked shared nodes, repetition map, bounded walk, flags undone on
+    # take-back) refines Board.tla for every programme up to the bound; the two behaviours the code
+    # first had are rejected by the same model
+    base = {"MaxOps": 6 if quick else 8, "NBoards": 2, "WalkInclusive": "TRUE", "CastleResets": "FALSE", "NPLimit": 7}
+    cfg = vlib.cfg_text(constants=base, invariants=["Refines", "DrawRefines", "RepsExact"])
+    r = vlib.tlc(work, "BoardImpl", cfg, workers=vlib.NCPU, timeout=3300, heap="12g")
+    vlib.need_tlc_ok(r, "BoardImpl")
+    rep.add_tlc(r)
+    rej = []
+    for k, v in (("WalkInclusive", "FALSE"), ("CastleResets", "TRUE")):
+        c = dict(base, MaxOps=6)
+        c[k] = v
+        r2 = vlib.tlc(work, "BoardImpl", vlib.cfg_text(constants=c, invariants=["Refines", "DrawRefines"]), workers=4, timeout=900, heap="4g", name="BoardImpl-" + k)
+        if r2.ok:
+            raise Inconclusive("BoardImpl.tla: deviation %s=%s is not rejected" % (k, v))
+        rej.append("%s=%s" % (k, v))
+    rep.extra["mc_board_impl"] = {"states": r.distinct, "constants": base, "deviations_rejected": rej, "wall_s": round(r.wall, 1)}
 
 
 # ----------------------------------------------------------------------------------------
